@@ -89,6 +89,18 @@ CLAIMED = {
                 "of evaluate() calls, the recorded DAG is acyclic and its edges are exactly the producer->consumer/picker dependencies.",
         "note": "Trusted: Coq kernel; hand-written model Model/Lazy.v; full_output=True dicts and lazy+cache covered by correspondence only.",
     },
+    "C05": {
+        "design_ref": "DESIGN.md section 5 / C05",
+        "technique": "Coq proof over a file-system event model of a map run (crash = prefix of the event list, resume = run on the crashed folder) for the atomic write protocol + event-trace correspondence and crash injection at every event in child processes",
+        "text": "crash_never_partial: with temp-file + os.replace writes no real file is ever partially written, for any pipeline, storage and crash point; "
+                "no_redo_of_stored: a resumed run never recomputes an element whose file/entry is stored; a run started on any sub-store of the uninterrupted "
+                "store ends with the uninterrupted outputs (store level, assuming completion); resume = uninterrupted result for every crash point and every pair "
+                "of crash points of three reference pipelines on both storages (decided by computation, bound in the statement); the in-place protocol of the "
+                "code as found is refuted (three failure classes). Six defects repaired (atomic dump, run_info.json written last, tolerant DictArray.load, ...). "
+                "Real runs are traced event by event and killed at every event / raise point in child processes, then resumed.",
+        "note": "PARTIAL: kernel crash semantics (page cache, rename durability) are not modelled: events are atomic and ordered; parallel executors not modelled; "
+                "the general link 'crashed folder is a sub-store of the full store' is proved only for the reference pipelines and tested by injection.",
+    },
     "C06": {
         "design_ref": "DESIGN.md section 5 / C06",
         "technique": "Coq proof over a model of runs on an existing store with fixed_indices selections and of the learners (selection = product of per-axis index sets; parts partition the index space; pieces leave the whole store) + partition/order correspondence",
